@@ -213,6 +213,10 @@ func runC06(c *fw.Case) (o fw.Outcome) {
 			return
 		}
 		o.Count("messages", 1)
+		if m := retainCheck("nas-protect", out, kind); m != "" {
+			o.Fail("retained-result-changed", "%s", m)
+			return
+		}
 		if !withCtx {
 			if !bytes.Equal(out, plain) {
 				o.Fail("plain-altered", "step %d: without a security context the message was changed: %x -> %x", s, clip(plain, 40), clip(out, 40))
